@@ -68,7 +68,8 @@ func convertReflectValueToType(rv reflect.Value, rt reflect.Type) (reflect.Value
 			return ptrV, nil
 		}
 	}
-	if rv.Type() == interfaceType {
+	if rv.Kind() == reflect.Interface {
+		// interface{} and other interface types, like error
 		if rv.IsNil() {
 			// return nil of correct type
 			return reflect.Zero(rt), nil
